@@ -49,6 +49,14 @@ fn gen_coord(src: &mut Src, fine: &mut bool) -> LefDecimal {
     LefDecimal::new(m, scale)
 }
 fn gen_pt(src: &mut Src, fine: &mut bool) -> LefPoint {
+    // both coordinates off the grid, by amounts that cancel (each one alone must be reported)
+    if ALLOW_FINE.with(|a| a.get()) && src.prob(1, 40) {
+        *fine = true;
+        let k = src.i64_in(1, 99);
+        let (a, b) = (src.signed(300), src.signed(300));
+        let (sx, sy) = if src.bool() { (k, -k) } else { (-k, k) };
+        return LefPoint::new(LefDecimal::new(a * 1_000_000 + sx, 6), LefDecimal::new(b * 1_000_000 + sy, 6));
+    }
     let x = gen_coord(src, fine);
     // x and y distinct (a swap is then visible), except one point in ten, which lies on the diagonal
     if src.prob(1, 10) {
@@ -93,6 +101,22 @@ fn gen_layer_block(src: &mut Src, f: &mut Flags) -> LefLayerGeometries {
                 }
                 f.fine |= p1_fine;
                 LefShape::Rect(None, p0, p1)
+            }
+            1 if src.prob(1, 4) => {
+                // small whole coordinates: a box or a triangle written from any corner, in either direction
+                // (one coordinate is then often twice, or minus, another)
+                let c = |src: &mut Src| LefDecimal::new(src.signed(4), 0);
+                let (x0, y0, x1, y1) = (c(src), c(src), c(src), c(src));
+                let mut v = vec![LefPoint::new(x0, y0), LefPoint::new(x1, y0), LefPoint::new(x1, y1), LefPoint::new(x0, y1)];
+                if src.prob(1, 3) {
+                    v.remove(src.index(4));
+                }
+                let r = src.index(v.len());
+                v.rotate_left(r);
+                if src.bool() {
+                    v.reverse();
+                }
+                LefShape::Polygon(None, v)
             }
             1 => {
                 let n = src.usize_in(3, 6);
@@ -435,6 +459,8 @@ fn run(run: &mut Run) {
     run.min_nontrivial = 200;
     run.literals("literals", &[vec![0, 0], vec![0, 1], vec![0, 2]], &literal_case);
     run.explore("import", run.tier.pick(300_000, 4_000_000), 1500, &main_case);
+    // the same, each case in a thread of its own (per-thread state of the code starts from scratch)
+    run.explore_fresh("import", run.tier.pick(3_000, 40_000), 1500, &main_case);
 }
 fn case(sub: &str) -> Option<Box<CaseFn<'static>>> {
     match sub {
